@@ -14,11 +14,19 @@ pub struct PCase {
     pub wasm: Vec<u8>,
     pub preserve_ct: bool,
     pub n_funcs: usize,
+    /// run the gc pass between parse and emit
+    pub gc: bool,
 }
 
 /// n functions with the given sizes; `bad` = index of a function whose body is invalid;
 /// `data` = add a passive data segment and a memory.init in the last function; `names` = name section
 pub fn build(sizes: &[usize], bad: &[usize], data: bool, names: bool) -> Vec<u8> {
+    build_x(sizes, bad, data, names, false)
+}
+
+/// as `build`; with `dead_last` the last function (the one that uses the data segment) is neither
+/// exported nor called: the gc pass deletes it, and with it the only reason for a data-count section
+pub fn build_x(sizes: &[usize], bad: &[usize], data: bool, names: bool, dead_last: bool) -> Vec<u8> {
     let mut mb = MB::default();
     let t1 = mb.ty(&[I32], &[I32]);
     if data {
@@ -33,7 +41,7 @@ pub fn build(sizes: &[usize], bad: &[usize], data: bool, names: bool) -> Vec<u8>
         for k in 0..*sz {
             code.extend_from_slice(&cat(&[&local_get(0), &i32_const(k as i32 + 1), &[0x6a], &local_set(0)]));
         }
-        if i + 1 < n {
+        if i + 1 < n && !(dead_last && i + 2 == n) {
             code.extend_from_slice(&cat(&[&local_get(0), &call(i as u32 + 1), &local_set(0)]));
         }
         if data && i == n - 1 {
@@ -47,7 +55,9 @@ pub fn build(sizes: &[usize], bad: &[usize], data: bool, names: bool) -> Vec<u8>
         code.extend_from_slice(&local_get(0));
         code.push(END);
         let f = mb.func(t1, vec![(1, I64)], code);
-        mb.export(&format!("f{}", i), 0, f);
+        if !(dead_last && i == n - 1) {
+            mb.export(&format!("f{}", i), 0, f);
+        }
         fn_names.push((f, format!("fun{}", i)));
     }
     if names {
@@ -70,24 +80,30 @@ pub fn inputs(tier: Tier) -> Vec<PCase> {
         }
         size_sets.dedup();
         for sizes in size_sets {
-            v.push(PCase { name: format!("sizes={:?}", sizes), wasm: build(&sizes, &[], false, false), preserve_ct: false, n_funcs: n });
+            v.push(PCase { name: format!("sizes={:?}", sizes), wasm: build(&sizes, &[], false, false), preserve_ct: false, n_funcs: n, gc: false });
         }
         let inc: Vec<usize> = (1..=n).collect();
         for b in 0..n {
-            v.push(PCase { name: format!("n={} invalid body #{}", n, b), wasm: build(&inc, &[b], false, false), preserve_ct: false, n_funcs: n });
+            v.push(PCase { name: format!("n={} invalid body #{}", n, b), wasm: build(&inc, &[b], false, false), preserve_ct: false, n_funcs: n, gc: false });
         }
         if n >= 2 {
-            v.push(PCase { name: format!("n={} invalid bodies #0 and #{}", n, n - 1), wasm: build(&inc, &[0, n - 1], false, false), preserve_ct: false, n_funcs: n });
+            v.push(PCase { name: format!("n={} invalid bodies #0 and #{}", n, n - 1), wasm: build(&inc, &[0, n - 1], false, false), preserve_ct: false, n_funcs: n, gc: false });
         }
-        v.push(PCase { name: format!("n={} data+memory.init", n), wasm: build(&inc, &[], true, false), preserve_ct: false, n_funcs: n });
-        v.push(PCase { name: format!("n={} names+preserve_ct", n), wasm: build(&inc, &[], false, true), preserve_ct: true, n_funcs: n });
+        v.push(PCase { name: format!("n={} data+memory.init", n), wasm: build(&inc, &[], true, false), preserve_ct: false, n_funcs: n, gc: false });
+        // the same pipelines with a gc between parse and emit (functions deleted before the parallel emit)
+        v.push(PCase { name: format!("n={} gc", n), wasm: build(&inc, &[], false, false), preserve_ct: false, n_funcs: n, gc: true });
+        if n >= 2 {
+            v.push(PCase { name: format!("n={} data+memory.init only in a dead function, gc", n), wasm: build_x(&inc, &[], true, false, true), preserve_ct: false, n_funcs: n, gc: true });
+            v.push(PCase { name: format!("n={} data+memory.init only in a dead function, no gc", n), wasm: build_x(&inc, &[], true, false, true), preserve_ct: false, n_funcs: n, gc: false });
+        }
+        v.push(PCase { name: format!("n={} names+preserve_ct", n), wasm: build(&inc, &[], false, true), preserve_ct: true, n_funcs: n, gc: false });
     }
     v
 }
 
 fn serial(c: &PCase) -> Result<Vec<u8>, ()> {
     let cfg = Cfg { preserve_ct: c.preserve_ct, ..Cfg::default() };
-    roundtrip(&c.wasm, &cfg, false).map_err(|_| ())
+    roundtrip(&c.wasm, &cfg, c.gc).map_err(|_| ())
 }
 
 pub fn wpar_path(args: &Args) -> std::path::PathBuf {
@@ -137,11 +153,11 @@ pub fn real_inputs() -> Vec<PCase> {
     let mut v = vec![];
     for (n, classes) in [(64usize, 1usize), (200, 4), (600, 3)] {
         let sizes: Vec<usize> = (0..n).map(|i| 1 + i % classes).collect();
-        v.push(PCase { name: format!("{} functions in {} size classes", n, classes), wasm: build(&sizes, &[], false, true), preserve_ct: true, n_funcs: n });
+        v.push(PCase { name: format!("{} functions in {} size classes", n, classes), wasm: build(&sizes, &[], false, true), preserve_ct: true, n_funcs: n, gc: false });
     }
     let sizes: Vec<usize> = (0..150).map(|i| 1 + i % 2).collect();
-    v.push(PCase { name: "150 functions, invalid body #149".into(), wasm: build(&sizes, &[149], false, false), preserve_ct: false, n_funcs: 150 });
-    v.push(PCase { name: "150 functions, data + memory.init".into(), wasm: build(&sizes, &[], true, false), preserve_ct: false, n_funcs: 150 });
+    v.push(PCase { name: "150 functions, invalid body #149".into(), wasm: build(&sizes, &[149], false, false), preserve_ct: false, n_funcs: 150, gc: false });
+    v.push(PCase { name: "150 functions, data + memory.init".into(), wasm: build(&sizes, &[], true, false), preserve_ct: false, n_funcs: 150, gc: false });
     v
 }
 
@@ -151,7 +167,7 @@ fn write_cases(path: &std::path::Path, cases: &[PCase]) -> Result<(), String> {
         let exp = serial(c);
         f.write_all(&(c.wasm.len() as u32).to_le_bytes()).unwrap();
         f.write_all(&c.wasm).unwrap();
-        f.write_all(&[c.preserve_ct as u8, exp.is_ok() as u8]).unwrap();
+        f.write_all(&[c.preserve_ct as u8 | (c.gc as u8) << 1, exp.is_ok() as u8]).unwrap();
         let e = exp.unwrap_or_default();
         f.write_all(&(e.len() as u32).to_le_bytes()).unwrap();
         f.write_all(&e).unwrap();
@@ -196,7 +212,7 @@ fn run_real(args: &Args, ev: &mut Ev, tier: Tier) -> Vec<Violation> {
                     family: "parallel-free-running".into(),
                     coords: format!("{} RAYON threads={}", c.name, v["threads"]),
                     wasm: c.wasm.clone(),
-                    cfg: json!({"free_running": true, "threads": v["threads"], "preserve_ct": c.preserve_ct}),
+                    cfg: json!({"free_running": true, "threads": v["threads"], "preserve_ct": c.preserve_ct, "gc": c.gc}),
                 };
                 let d = v["detail"].as_str().unwrap_or("");
                 viol.push(Violation::new("C09", format!("{}:free-running", sig_of(d)), format!("{} (real rayon-core, {} threads; sampling supplement)", d, v["threads"]), &case));
@@ -281,7 +297,7 @@ fn recheck(args: &Args, c: &Case) -> Vec<Violation> {
         // a schedule of the free-running pool cannot be replayed; re-run the same input with more
         // repeats: it must fail again to be reported
         let exe = args.verif.join("harness-par-real/target/verif/wreal");
-        let pc = PCase { name: c.coords.clone(), wasm: c.wasm.clone(), preserve_ct: c.cfg["preserve_ct"].as_bool().unwrap_or(false), n_funcs: 0 };
+        let pc = PCase { name: c.coords.clone(), wasm: c.wasm.clone(), preserve_ct: c.cfg["preserve_ct"].as_bool().unwrap_or(false), n_funcs: 0, gc: c.cfg["gc"].as_bool().unwrap_or(false) };
         let dir = args.verif.join("work").join("c09").join(format!("real-replay{}", std::process::id()));
         let _ = std::fs::create_dir_all(&dir);
         let cpath = dir.join("cases.bin");
@@ -300,7 +316,7 @@ fn recheck(args: &Args, c: &Case) -> Vec<Violation> {
         }
         return vec![];
     }
-    let pc = PCase { name: c.coords.clone(), wasm: c.wasm.clone(), preserve_ct: c.cfg["preserve_ct"].as_bool().unwrap_or(false), n_funcs: 0 };
+    let pc = PCase { name: c.coords.clone(), wasm: c.wasm.clone(), preserve_ct: c.cfg["preserve_ct"].as_bool().unwrap_or(false), n_funcs: 0, gc: c.cfg["gc"].as_bool().unwrap_or(false) };
     let item = json!({"case": 0, "threads": c.cfg["threads"], "migrated": c.cfg["migrated"], "mode": "replay", "schedule": c.cfg["schedule"]});
     match run_wpar(args, &[pc], &[item], &format!("replay{}", std::process::id())) {
         Ok(r) if r[0]["verdict"] == "diff" => vec![Violation::new("C09", sig_of(r[0]["detail"].as_str().unwrap_or("")), r[0]["detail"].as_str().unwrap_or("").to_string(), c)],
@@ -364,7 +380,7 @@ pub fn run(args: &Args) -> i32 {
                     family: "parallel".into(),
                     coords: format!("{} T={} migrated={}", c.name, it["threads"], it["migrated"]),
                     wasm: c.wasm.clone(),
-                    cfg: json!({"threads": it["threads"], "migrated": it["migrated"], "schedule": r["schedule"], "preserve_ct": c.preserve_ct}),
+                    cfg: json!({"threads": it["threads"], "migrated": it["migrated"], "schedule": r["schedule"], "preserve_ct": c.preserve_ct, "gc": c.gc}),
                 };
                 let d = r["detail"].as_str().unwrap_or("");
                 viol.push(Violation::new("C09", sig_of(d), format!("{} under schedule {}", d, r["schedule"]), &case));
